@@ -35,6 +35,7 @@ def jobs(tier):
             out.append({"name": "%s/%s" % (sh, leaf), "shape": sh, "leaf": leaf, "depth": b["depth"], "tier": tier})
     for leaf in ["int09", "str-norm", "list-int", "dict-typed", "bool", "net"]:
         out.append({"name": "late-decl/%s" % leaf, "kind": "late-decl", "leaf": leaf})
+    out.append({"name": "file-world", "kind": "file-world"})
     if tier != "thorough":
         for leaf in W.option_leaves():
             for sh in ("flat", "cfglist"):
@@ -131,7 +132,14 @@ class Monitor:
         ref = R.ref_validate(fs, value)
         got = W.chained(w.cfg, path)
         if ref[0] == "rej" and op[0] in ("load_tree", "loads"):
-            return   # a tree value of the wrong shape that the loader coerces: the state invariant judges the result
+            # a tree value of the wrong shape that the loader coerces is judged by the state invariant; a load that stores
+            # the rejected value exactly as it was given (an empty list under required=True, ...) is judged here
+            if type(got) in (list, dict, str, int, float, bool) or type(got).__name__ in ("ListProxy", "DictProxy"):
+                if V.canon(V.plain(got)) == V.canon(V.plain(value)) and type(V.plain(got)) is type(V.plain(value)):
+                    ctx.violation("C01|%s|%s|accepted-invalid|%s" % (self.shape, self.leaf, _opkey(op)),
+                                  "after %s, %s was accepted and the field holds the given value %s although %s"
+                                  % (hist, op, V.show(value, 40), ref[1]), self.case(hist, op), size=len(hist))
+            return
         if ref[0] == "rej":
             ctx.violation("C01|%s|%s|accepted-invalid|%s" % (self.shape, self.leaf, _opkey(op)),
                           "after %s, %s was accepted although the value %s (%s); the field now reads %s"
@@ -258,8 +266,72 @@ def _late_declaration(job, ctx):
     ctx.sample({"late_declaration": leaf})
 
 
+def _file_world(job, ctx):
+    """the directory a file-name field looks into changes between assignments (a file appears, disappears, appears again):
+    every assignment - on the configuration that saw the earlier state and on another one built from the same schema, by
+    every route - is judged against the directory as it is at that moment"""
+    import itertools
+    import json
+    import os
+    import cincoconfig as cc
+    only = job.get("only")
+    d = os.path.join(ctx.tmp, "fw2")
+    os.makedirs(d, exist_ok=True)
+    target = os.path.join(d, "probe.log")
+    for exists in (True, "file", False):
+        for events in itertools.product(("create", "remove"), repeat=3):
+            for start in ("present", "absent"):
+                ident = [repr(exists), list(events), start]
+                if only is not None and only != ident:
+                    continue
+                s = cc.Schema()
+                s.f = cc.FilenameField(exists=exists, startdir=d)
+                s.l = cc.ListField(cc.FilenameField(exists=exists, startdir=d))
+                s.sub.f = cc.FilenameField(exists=exists, startdir=d)
+                a, b = s(), s()
+                b.l = []
+
+                def world(state):
+                    if state == "present":
+                        open(target, "w").close()
+                    elif os.path.exists(target):
+                        os.unlink(target)
+                world(start)
+                case = {"kind": "file-world", "jobparams_full": {k: v for k, v in job.items() if k not in ("single", "only")}, "only": ident, "job": job["name"]}
+                for step, ev in enumerate(("probe",) + events):
+                    if ev != "probe":
+                        world("present" if ev == "create" else "absent")
+                    there = os.path.exists(target)
+                    should = (there if exists in (True, "file") else not there)
+                    routes = {"attr": lambda c: setattr(c, "f", "probe.log"), "dotted": lambda c: c.__setitem__("sub.f", "probe.log"),
+                              "load_tree": lambda c: c.load_tree({"f": "probe.log"}), "loads": lambda c: c.loads(json.dumps({"sub": {"f": "probe.log"}}), "json"),
+                              "append": lambda c: c.l.append("probe.log"), "absolute": lambda c: setattr(c, "f", target)}
+                    for rname, route in routes.items():
+                        for who, cfg in (("same", a), ("other", b)):
+                            if rname == "append" and who == "same":
+                                continue
+                            ctx.transitions += 1
+                            try:
+                                route(cfg)
+                                ok = True
+                            except Exception:  # noqa
+                                ok = False
+                            ctx.case(("file-world", repr(exists), start, events[:step], rname, who), "file-world:%s" % ("accepted" if ok else "rejected"), True)
+                            if ok != should:
+                                ctx.violation("C01|file-world|exists=%r|%s|%s|%s" % (exists, rname, who, "accepted-invalid" if ok else "rejects-valid"),
+                                              "exists=%r, directory history %s then %s: the file is %s now, but %s on the %s configuration was %s"
+                                              % (exists, start, list(events[:step]), "there" if there else "not there", rname, who, "accepted" if ok else "rejected"), case, size=step)
+    ctx.states += 1
+    ctx.traces += 1
+
+
 def run_job(job, ctx):
     single = job.get("single")
+    if single and single.get("kind") == "file-world":
+        j = dict(single["jobparams_full"]); j["only"] = single["only"]
+        return _file_world(j, ctx)
+    if job.get("kind") == "file-world":
+        return _file_world(job, ctx)
     if single and single.get("kind") == "late-decl":
         j = dict(single["jobparams_full"]); j["only"] = single["only"]
         return _late_declaration(j, ctx)
